@@ -3552,6 +3552,10 @@ class PyCdlib:
             raise pycdlibexception.PyCdlibInternalError('Tried to remove joliet dir from non-Joliet ISO')
 
         joliet_child = self._find_joliet_record(joliet_path)
+        if not joliet_child.is_dir():
+            raise pycdlibexception.PyCdlibInvalidInput('Cannot remove a file with rm_directory (try rm_file instead)')
+        if len(joliet_child.children) > 2:
+            raise pycdlibexception.PyCdlibInvalidInput('Directory must be empty to use rm_directory')
         num_bytes_to_remove = joliet_child.get_data_length()
         num_bytes_to_remove += self._remove_child_from_dr(joliet_child,
                                                           joliet_child.index_in_parent)
@@ -5098,7 +5102,8 @@ class PyCdlib:
             (udf_name, udf_parent) = self._udf_name_and_parent_from_path(udf_path_bytes)
 
             num_extents_to_remove = udf_parent.remove_file_ident_desc_by_name(udf_name,
-                                                                              self.logical_block_size)
+                                                                              self.logical_block_size,
+                                                                              True)
             # Remove space (if necessary) in the parent File Identifier
             # Descriptor area.
             num_bytes_to_remove += num_extents_to_remove * self.logical_block_size
